@@ -1,14 +1,146 @@
 (** Property C01 at the binary64 instance – "resolving an already resolved book
-    changes nothing" needs [x * 1 = x]; at [B64] that law holds on the values a
-    binary64 variable can hold ([canonical]), not on all of [spec_float].
-    (Work in progress: further theorems are added below as they are proved.) *)
-From Coq Require Import ZArith Floats.SpecFloat.
-From HP Require Import Base.Bytes Base.Num Base.GoFloat Proofs.FloatCanon.
+    changes nothing".
+
+    Props/C01_value.v / Props/C01.v prove idempotence for every [Num] from the law
+    [x * 1 = x] ([ref_db_idempotent], [resolve_idempotent]), or from that law on
+    products and sums of arbitrary elements ([..._computed]).  [T B64] is all
+    of [spec_float], including finite triples [S754_finite s m e] that are not
+    binary64 numbers and that no computation produces; on those [x * 1 <> x],
+    so neither hypothesis holds at [B64] ([computed_hypothesis_false_at_B64]
+    below).  Here: the law holds on the values a binary64 variable can hold,
+
+        canonical x := match x with S754_finite _ m e => bounded 53 1024 m e = true | _ => True end
+
+    ([bounded] = the standard library's / Flocq's validity condition), the
+    arithmetic and [parse_float] only produce such values, and therefore the
+    program's resolver is idempotent on every book it can load.
+
+    ALL theorems of this file are closed under the global context: they are
+    proved by integer arithmetic on the standard library's [SpecFloat]
+    definitions (Proofs/FloatCanon.v, FloatValid.v, FloatIdem.v); neither Flocq
+    nor the real numbers are used. *)
+From Coq Require Import ZArith Permutation Floats.SpecFloat.
+From HP Require Import Base.Bytes Base.Num Base.GoFloat Model.Elements Model.Resolver Model.Reporters Model.Cli
+  Spec.ResolverSpec.
+From HP Require Import Proofs.FloatCanon Proofs.FloatExact Proofs.FloatValid Proofs.FloatIdem.
 Open Scope Z_scope.
 
-(** [x * 1 = x] on NaN, both zeros (sign kept), both infinities and every
-    finite [S754_finite s m e] with [bounded 53 1024 m e].  Axiom-free. *)
+(** [x * 1 = x] on NaN, both zeros (the sign is kept), both infinities and
+    every finite [S754_finite s m e] with [bounded 53 1024 m e] *)
 Theorem SFmul_one_canonical :
   forall x : f64, canonical x -> SFmul prec emax x (f_of_Z 1) = x.
 Proof. exact SFmul_one_canonical_lemma. Qed.
 Print Assumptions SFmul_one_canonical.
+
+(** the rounding function of the standard library returns canonical values
+    whenever its input mantissa has enough bits ([enough_bits q e]:
+    [e <= fexp 53 1024 (digits q + e)]) – the fact behind the next three *)
+Theorem binary_round_aux_canonical :
+  forall (s : bool) (mx ex : Z) (lx : location),
+    0 < mx -> enough_bits mx ex -> valid_binary prec emax (binary_round_aux prec emax s mx ex lx) = true.
+Proof. exact binary_round_aux_valid. Qed.
+Print Assumptions binary_round_aux_canonical.
+
+(** products of canonical values are canonical *)
+Theorem SFmul_canonical :
+  forall x y : f64, canonical x -> canonical y -> canonical (SFmul prec emax x y).
+Proof. exact SFmul_canonical_lemma. Qed.
+Print Assumptions SFmul_canonical.
+
+(** sums of canonical values are canonical (the sum of two finite values is
+    canonical whatever they are: [SFadd_finite_canonical]; the hypothesis is
+    needed for [0 + y = y] and [x + 0 = x] only) *)
+Theorem SFadd_canonical :
+  forall x y : f64, canonical x -> canonical y -> canonical (SFadd prec emax x y).
+Proof. exact SFadd_canonical_lemma. Qed.
+Print Assumptions SFadd_canonical.
+
+(** whatever [strconv.ParseFloat] (the model) returns is canonical: every
+    byte string, decimal or hexadecimal, special values included *)
+Theorem parse_float_canonical :
+  forall (l : bytes) (x : T B64), of_lexeme B64 l = Some x -> canonical x.
+Proof. exact parse_float_canonical_lemma. Qed.
+Print Assumptions parse_float_canonical.
+
+(** the hypothesis of [ref_db_idempotent_computed] / [resolve_idempotent_computed],
+    literally, is false at [B64] ... *)
+Theorem computed_hypothesis_false_at_B64 :
+  ~ (forall x : T B64, (exists y z, x = mul B64 y z \/ x = add B64 y z) -> mul B64 x (one B64) = x).
+Proof. exact computed_hypothesis_refuted_B64. Qed.
+Print Assumptions computed_hypothesis_false_at_B64.
+
+(** ... and true when the operands are canonical *)
+Theorem B64_mul_one_on_computed :
+  forall x y z : T B64,
+    canonical y -> canonical z -> x = mul B64 y z \/ x = add B64 y z -> mul B64 x (one B64) = x.
+Proof. exact B64_mul_one_computed. Qed.
+Print Assumptions B64_mul_one_on_computed.
+
+(** idempotence relative to an invariant of the amounts – every [Num]; this
+    is the form of [ref_db_idempotent_computed] that can be instantiated at
+    binary64 ([book_in NM Q B]: every coefficient of [B] satisfies [Q]) *)
+Theorem ref_db_idempotent_invariant :
+  forall (NM : Num) (Q : T NM -> Prop),
+    Q (one NM) -> (forall y z, Q y -> Q z -> Q (mul NM y z)) -> (forall y z, Q y -> Q z -> Q (add NM y z)) ->
+    (forall x, Q x -> mul NM x (one NM) = x) ->
+    forall (B : db NM) (N : nat),
+      depth_lt NM B N -> book_in NM Q B ->
+      keys (ref_db NM B N) = keys B /\
+      (forall r v x a, In (r, v) (ref_db NM B N) -> In (x, a) v -> lookup x (ref_db NM B N) = None) /\
+      ref_db NM (ref_db NM B N) N = ref_db NM B N.
+Proof. exact ref_db_idempotent_inv. Qed.
+Print Assumptions ref_db_idempotent_invariant.
+
+(** [B64_idempotent], reference level: a binary64 book whose coefficients were
+    read by [parse_float] (or are canonical for any other reason) *)
+Theorem B64_idempotent :
+  forall (B : db B64) (N : nat),
+    depth_lt B64 B N ->
+    (forall r els x a, In (r, els) B -> In (x, a) els -> exists l, of_lexeme B64 l = Some a) ->
+    keys (ref_db B64 B N) = keys B /\
+    (forall r v x a, In (r, v) (ref_db B64 B N) -> In (x, a) v -> lookup x (ref_db B64 B N) = None) /\
+    ref_db B64 (ref_db B64 B N) N = ref_db B64 B N.
+Proof. exact B64_ref_db_idempotent_parsed. Qed.
+Print Assumptions B64_idempotent.
+
+Theorem B64_idempotent_canonical :
+  forall (B : db B64) (N : nat),
+    depth_lt B64 B N ->
+    (forall r els x a, In (r, els) B -> In (x, a) els -> canonical a) ->
+    keys (ref_db B64 B N) = keys B /\
+    (forall r v x a, In (r, v) (ref_db B64 B N) -> In (x, a) v -> lookup x (ref_db B64 B N) = None) /\
+    ref_db B64 (ref_db B64 B N) N = ref_db B64 B N.
+Proof. exact B64_ref_db_idempotent. Qed.
+Print Assumptions B64_idempotent_canonical.
+
+(** the algorithm ([resolve], Model/Resolver.v) in binary64: running it on its
+    own output, under any visiting order, succeeds and returns the same book,
+    whose coefficients are canonical again *)
+Theorem B64_resolve_idempotent :
+  forall (B : db B64) (N : nat) (perm perm' : list bytes -> list bytes) (B' : db B64),
+    (forall r els x a, In (r, els) B -> In (x, a) els -> canonical a) ->
+    NoDup (keys B) -> Permutation (perm (keys B)) (keys B) -> Permutation (perm' (keys B)) (keys B) ->
+    resolve B64 N perm B = Some B' ->
+    resolve B64 N perm' B' = Some B' /\
+    (forall r els x a, In (r, els) B' -> In (x, a) els -> canonical a).
+Proof. exact FloatIdem.B64_resolve_idempotent. Qed.
+Print Assumptions B64_resolve_idempotent.
+
+(** every coefficient of the book the program loads ([load_db]: any file
+    content, any read fault) is canonical *)
+Theorem B64_loaded_book_canonical :
+  forall (o : opened) r els x a, In (r, els) (fst (load_db B64 o)) -> In (x, a) els -> canonical a.
+Proof. exact B64_load_db_canonical. Qed.
+Print Assumptions B64_loaded_book_canonical.
+
+(** with every hypothesis discharged: the book the program resolves
+    ([resolved_db], WithResolvedDatabase), whatever the database file, the read
+    fault, the depth limit and the two visiting orders *)
+Theorem B64_resolved_db_idempotent :
+  forall (w : world) (op : options) (o : opened) (B' : db B64) (perm' : list bytes -> list bytes),
+    order_oracle (o_resolve (w_or w)) -> order_oracle perm' ->
+    resolved_db B64 w op o = inr B' ->
+    resolve B64 (Z.to_nat (op_depth op)) perm' B' = Some B' /\
+    (forall r els x a, In (r, els) B' -> In (x, a) els -> canonical a).
+Proof. exact FloatIdem.B64_resolved_db_idempotent. Qed.
+Print Assumptions B64_resolved_db_idempotent.
